@@ -54,6 +54,8 @@ type Case struct {
 	LogIdx uint   `json:"logIdx,omitempty"`
 	// a history over one set of long-lived objects (seq.go); the fields above are unused then
 	Seq *SeqCase `json:"seq,omitempty"`
+	// several goroutines using one set of long-lived handler objects at the same time (conc.go)
+	Conc *ConcCase `json:"conc,omitempty"`
 }
 
 type Obs struct {
@@ -67,6 +69,8 @@ type Obs struct {
 	Amount uint64   `json:"amount,omitempty"`
 	Where  string   `json:"where,omitempty"` // source | destination (informative)
 	Occs   []OccObs `json:"occs,omitempty"`  // class seq: one entry per handled deposit of the history
+	Calls  int      `json:"calls,omitempty"` // class conc: concurrent calls made / calls whose result differed from the sequential one
+	Diffs  int      `json:"diffs,omitempty"`
 }
 
 // ---- the real code ---------------------------------------------------------------------------------------
@@ -201,6 +205,9 @@ func run(c Case) Obs {
 	if c.Seq != nil {
 		return runSeq(c.Seq)
 	}
+	if c.Conc != nil {
+		return runConc(c.Conc)
+	}
 	m, class := source(c)
 	if class != "" {
 		return Obs{Class: class, Where: "source"}
@@ -223,6 +230,9 @@ func coq(c Case, o Obs) string {
 	if c.Seq != nil {
 		return coqSeq(c.Seq, o)
 	}
+	if c.Conc != nil {
+		return coqConc(c.Conc, o)
+	}
 	return "Case " + skind[c.Src] + " " + dkind[c.Dst] + " " + coqDep(c) + " " + coqObs(o)
 }
 
@@ -238,6 +248,9 @@ func main() {
 			if c.Seq != nil {
 				return seqKind(c.Seq)
 			}
+			if c.Conc != nil {
+				return "conc:" + c.Conc.Theme
+			}
 			k := c.Src + "->" + c.Dst
 			if !wellFormed(c) {
 				k += ":malformed"
@@ -248,9 +261,12 @@ func main() {
 			if c.Seq != nil {
 				return seqNonTrivial(c.Seq, o)
 			}
+			if c.Conc != nil {
+				return concNonTrivial(c.Conc, o)
+			}
 			return wellFormed(c) && (o.Class == "prop" || o.Class == "btcprop")
 		},
 		ShardSize: 170,
-		Rule:      "per source handler: amounts from the width table (1, 8, 63..65, 128, 255, 256 bits, 0, 2^256-1), recipient lengths 0,1,19,20,21,31,32,33,64,255 + random, optional-message tails absent / 33 / 64 / 64+n bytes with fee words at the 2^64 and 2^256-100000 boundaries, handler responses for EVERY EVM handler kind: nil / empty / 32 bytes zero / 32 bytes / 33+ bytes (ERC20; 1..31 bytes in the malformed stream), and for the handlers that are not supposed to look at it also 1..31 bytes and ABI-encoded strings; a third of the deposits with every variable-length calldata field empty / every amount zero with probability 1/2; message id text, timestamp, Bitcoin block number and (histories) the depositor's address varied in 3 of 4 deposits, ERC1155 vectors of 0..6 ids, generic parts of 0..255 bytes, BTC amounts up to 2^64 satoshi and beyond; all (source, destination) handler pairs; envelopes incl. domains 0/255 and nonce 2^64-1; plus a malformed stream (truncations, hostile length words) on which only model = implementation is compared; distinct = distinct input JSON; non-trivial = well-formed deposit for which a proposal was prepared; plus histories (kind seq:...) of 2..8 steps over ONE set of long-lived objects wired as app.go does (scripted ChainClient -> events.Listener -> DepositEventHandler / RetryV1EventHandler / RetryMessageHandler -> one ETHDepositHandler with a HandlerMatcher that fails on script; one substrate and one btc deposit handler; one message handler per destination): 3..7 EVM deposits of 2..4 resources (ids differing in one byte in half of the histories) + 0..3 substrate/btc deposits, block scans / re-scans / v1 and v2 retries of the same deposit, scripted lookup / fetch / block-fetch failures followed by the retried request (half of the histories are fault free), batches routed as Relayer.route does, concurrent steps; every proposal read when built, when its batch is written and at the end of the history; non-trivial history = at least two steps and a proposal for a well-formed deposit",
+		Rule:      "per source handler: amounts from the width table (1, 8, 63..65, 128, 255, 256 bits, 0, 2^256-1), recipient lengths 0,1,19,20,21,31,32,33,64,255 + random, optional-message tails absent / 33 / 64 / 64+n bytes with fee words at the 2^64 and 2^256-100000 boundaries, handler responses for EVERY EVM handler kind: nil / empty / 32 bytes zero / 32 bytes / 33+ bytes (ERC20; 1..31 bytes in the malformed stream), and for the handlers that are not supposed to look at it also 1..31 bytes and ABI-encoded strings; a third of the deposits with every variable-length calldata field empty / every amount zero with probability 1/2; message id text, timestamp, Bitcoin block number and (histories) the depositor's address varied in 3 of 4 deposits, ERC1155 vectors of 0..6 ids, generic parts of 0..255 bytes, BTC amounts up to 2^64 satoshi and beyond; all (source, destination) handler pairs; envelopes incl. domains 0/255 and nonce 2^64-1; plus a malformed stream (truncations, hostile length words) on which only model = implementation is compared; distinct = distinct input JSON; non-trivial = well-formed deposit for which a proposal was prepared; plus histories (kind seq:...) of 2..8 steps over ONE set of long-lived objects wired as app.go does (scripted ChainClient -> events.Listener -> DepositEventHandler / RetryV1EventHandler / RetryMessageHandler -> one ETHDepositHandler with a HandlerMatcher that fails on script; one substrate and one btc deposit handler; one message handler per destination): 3..7 EVM deposits of 2..4 resources (ids differing in one byte in half of the histories) + 0..3 substrate/btc deposits, block scans / re-scans / v1 and v2 retries of the same deposit, scripted lookup / fetch / block-fetch failures followed by the retried request (half of the histories are fault free), batches routed as Relayer.route does, concurrent steps; every proposal read when built, when its batch is written and at the end of the history; non-trivial history = at least two steps and a proposal for a well-formed deposit; plus concurrent cases (kind conc:<theme>): 4..16 goroutines, each with its own handler kind (at least half of them the theme kind, cycled through all six source kinds and the destination kinds) and 3..6 own deposits of different shapes, push them round after round (about 16000 HandleDeposit -> HandleMessage calls per case, GOMAXPROCS 4/8/16) through ONE set of long-lived objects (one ETHDepositHandler per EVM source chain, one substrate and one btc deposit handler, one message handler per destination kind); every result is compared in Go with the sequential result of the same deposit through the same objects, the deposits whose result differed (or a fixed sample of 3) go to the kernel with the readings before / concurrent / after",
 	})
 }
